@@ -60,7 +60,7 @@ def main():
         for ck in checks:
             t = time.time()
             r = subprocess.run([f"{V}/bin/vcheck", ck, "--tier", tier], cwd=V, capture_output=True, text=True, timeout=6000,
-                               env=dict(env, VERIF_REPO=scratch, VERIF_DIR=V, VERIF_NOEVIDENCE="1", VERIF_STALL_S="60"))
+                               env=dict(env, VERIF_REPO=scratch, VERIF_DIR=V, VERIF_NOEVIDENCE="1", VERIF_EPHEMERAL="1", VERIF_STALL_S="60"))
             sigs = [l.strip()[4:] for l in r.stdout.splitlines() if l.strip().startswith("sig=")]
             meta["checks"][ck] = {"tier": tier, "exit": r.returncode, "caught": r.returncode == 1 and f"VIOLATION property={ck}" in r.stdout,
                                   "signatures": sigs[:6], "seconds": round(time.time() - t), "summary": r.stdout.strip().splitlines()[-1:] }
